@@ -13,7 +13,7 @@ import (
 
 // tiny pools: every guard is hit from every reachable state
 var (
-	pidPool   = []string{"p1", "p2", "pa/b", "q"}
+	pidPool   = []string{"p1", "p2", "pa/b", "q", "zk", "Zk"} // "zk"/"Zk": ids are compared exactly (no pattern of queryPool tells them apart other than "*")
 	cbPool    = []string{"c1", "c2", "t1"} // "t1" collides with a task id on purpose (CreateTasks natural error)
 	taskPool  = []string{"t1", "t2", "c1"}
 	schedPool = []string{"s1", "s2", "sx"}
